@@ -50,12 +50,14 @@ def build_array(uni, desc, cls=None):
     ds = fl_dimset(uni, desc["dims"])
     shape = tuple(len(uni[l]["items"]) for l in desc["dims"])
     vals = np.array([float(Fraction(v)) for v in desc["values"]], dtype=float).reshape(shape)
+    if desc.get("dtype") == "int" and all(Fraction(v).denominator == 1 for v in desc["values"]):
+        vals = vals.astype(np.int64)      # whole numbers held in an integer array: how the values are stored must not matter
     lay = desc.get("layout", "C")
     if lay == "F" and vals.ndim >= 2:
         vals = np.asfortranarray(vals)
     elif lay == "V" and vals.ndim >= 1:
         # a non-contiguous view into a bigger buffer
-        big = np.zeros(tuple(2 * s for s in shape))
+        big = np.zeros(tuple(2 * s for s in shape), dtype=vals.dtype)
         big[tuple(slice(None, None, 2) for _ in shape)] = vals
         vals = big[tuple(slice(None, None, 2) for _ in shape)]
     return cls(dims=ds, values=vals, **desc.get("kwargs", {}))
